@@ -20,14 +20,22 @@ open(p, 'w').write(s)
 p = 'harness/main.go'
 s = open(p).read()
 def fix_main(m):
-    # per property the side that lists more suites
+    # per property the union of the suites both sides list (HEAD's order, then the other side's new ones)
     a, b = m.group(1).splitlines(), m.group(2).splitlines()
     keys, order = {}, []
     for line in a + b:
         k = line.split(':')[0].strip()
+        mm = re.match(r'(\s*"C\d+":\s*\{)(.*)(\},?\s*)$', line)
         if k not in keys:
             order.append(k)
             keys[k] = line
+        elif mm and re.match(r'(\s*"C\d+":\s*\{)(.*)(\},?\s*)$', keys[k]):
+            old = re.match(r'(\s*"C\d+":\s*\{)(.*)(\},?\s*)$', keys[k])
+            have = [x.strip() for x in old.group(2).split(',') if x.strip()]
+            for x in [x.strip() for x in mm.group(2).split(',') if x.strip()]:
+                if x not in have:
+                    have.append(x)
+            keys[k] = old.group(1) + ', '.join(have) + old.group(3)
         elif len(line) > len(keys[k]):
             keys[k] = line
     return '\n'.join(keys[k] for k in order) + '\n'
